@@ -236,9 +236,47 @@ def format_jobs(tier):
     js += [("driver-format:%r,negative" % p, job_format, {"fmt": p, "year_digits": 6, "sign": "neg"}) for p in ("%Y-%m-%d", "%E4Y")]
     js += [("driver-format:%r(all int64,%s)" % (p, s), job_format, {"fmt": p, "sign": s}) for p in ("%Y", "%s") for s in ("pos", "neg")]
     return js
-def parse_jobs(tier): return []
+
+def replay_parse_model(job, m):
+    """rebuild the concrete input of a driver-parse counterexample, parse it natively in fixed_time_zone(zone_offset) and
+    compare with a direct python evaluation of C09's statement"""
+    from spec import cal
+    shape = job.split(":", 1)[1]
+    fmt, pieces = PARSE_SHAPES[shape]
+    data = bytearray(); vals = {}
+    for p in pieces:
+        if p[0] == "lit": data += p[1].encode()
+        elif p[0] == "num":
+            ds = [m.get("%s_%d" % (p[1], i), 48) for i in range(p[2])]
+            data += bytes(ds); vals[p[1]] = int(bytes(ds))
+        elif p[0] == "osign": b = m.get("osign", 43); data.append(b); vals["osign"] = b
+        elif p[0] == "any": b = m.get("anybyte", 32) & 255; data.append(b); vals["any"] = b
+    zoff = m.get("zone_offset", 0)
+    got = R.parse(fmt, bytes(data), zoff)
+    I64MIN, I64MAX = -(1 << 63), (1 << 63) - 1
+    if shape.startswith("s-"):
+        v = -vals["s"] if shape == "s-neg" else vals["s"]
+        ok = I64MIN <= v <= I64MAX and not (shape == "s-neg" and vals["s"] == 0)
+        want = (v, 0) if ok else None
+    else:
+        g = lambda k, dflt=0: vals.get(k, dflt)
+        Y, mo, dd, H, M, S = g("Y", 1970), g("m", 1), g("d", 1), g("H"), g("M"), g("S")
+        ok = 1 <= mo <= 12 and 1 <= dd <= 31 and H <= 23 and M <= 59 and S <= 60 and dd <= cal.dim(Y, mo if 1 <= mo <= 12 else 1)
+        offp = None
+        if "zh" in vals:
+            ok = ok and vals["zh"] <= 23 and vals["zm"] <= 59
+            offp = (vals["zh"] * 3600 + vals["zm"] * 60) * (-1 if vals["osign"] == 45 else 1)
+        if shape == "trailing": ok = ok and chr(vals["any"]) in " \t\n\v\f\r"
+        want = None
+        if ok:
+            inst = cal.sec(Y, mo, dd, H, M, 59 if S == 60 else S) + (1 if S == 60 else 0) - (offp if offp is not None else zoff)
+            fsv = 0 if S == 60 else vals.get("f", 0) * 10 ** 12
+            want = (inst, fsv)
+    if got != want: return "parse(%r, %r) in fixed zone %+d s = %s, expected %s" % (fmt, bytes(data), zoff, got, want)
+    return None
 
 def replay_model(job, m, desc=""):
+    if job.startswith("driver-parse:"): return replay_parse_model(job, m)
     fmt = eval(job.split(":", 1)[1].split("(all")[0].split(",negative")[0])
     if isinstance(fmt, bytes): fmt = fmt.decode("latin1")
     toks = tokenize(fmt.encode("latin1"))
@@ -264,3 +302,126 @@ def replay_model(job, m, desc=""):
                 exp += bytes(int(b) for b in bs); break
     if got != bytes(exp): return "format(%r) of %s%+d fs=%d = %r, expected %r" % (fmt, (y, mo, d, f["hh"], f["mm"], f["ss"]), off, fs, got, bytes(exp))
     return None
+
+# ------------------------------------------------------------------------------------------ parse() driver
+def digits(ex, st, name, n):
+    """n symbolic ASCII digits; returns (byte terms, value term)"""
+    bs = []; v = 0
+    for i in range(n):
+        b = ex.input("%s_%d" % (name, i), 8, 48, 57); bs.append(b); v = add(mul(v, 10), sub(b, 48))
+    return bs, v
+
+PARSE_SHAPES = {
+    # name: (format, list of pieces) ; piece = ('lit', text) | ('num', field, ndigits) | ('sign', field)
+    "ymdhms": ("%Y-%m-%d %H:%M:%S", [("num", "Y", 4), ("lit", "-"), ("num", "m", 2), ("lit", "-"), ("num", "d", 2), ("lit", " "), ("num", "H", 2), ("lit", ":"), ("num", "M", 2), ("lit", ":"), ("num", "S", 2)]),
+    "hms-z": ("%H:%M:%S %z", [("num", "H", 2), ("lit", ":"), ("num", "M", 2), ("lit", ":"), ("num", "S", 2), ("lit", " "), ("osign", "z"), ("num", "zh", 2), ("num", "zm", 2)]),
+    "s-pos": ("%s", [("num", "s", 19)]),
+    "s-neg": ("%s", [("lit", "-"), ("num", "s", 19)]),
+    "s-short": ("%s", [("num", "s", 10)]),
+    "ES": ("%H:%M:%E*S", [("num", "H", 2), ("lit", ":"), ("num", "M", 2), ("lit", ":"), ("num", "S", 2), ("lit", "."), ("num", "f", 3)]),
+    "trailing": ("%H:%M", [("num", "H", 2), ("lit", ":"), ("num", "M", 2), ("any", "x")]),
+}
+
+def job_parse(shape):
+    fmt, pieces = PARSE_SHAPES[shape]
+    mod = F.module()
+    ex = F.new_ex(tl=120000)
+    from spec import cal
+    PARSE = build.find_func(mod, r"cctz::detail::parse\(")
+    I64MIN, I64MAX = -(1 << 63), (1 << 63) - 1
+    def h(ex, st):
+        vals = {}; data = []
+        for p in pieces:
+            if p[0] == "lit": data += list(p[1].encode())
+            elif p[0] == "num":
+                bs, v = digits(ex, st, p[1], p[2]); data += bs; vals[p[1]] = v
+            elif p[0] == "osign":
+                b = ex.input("osign", 8); ex.assume(st, or_(eq(b, 43), eq(b, 45))); data.append(b); vals["osign"] = b
+            elif p[0] == "any":
+                b = ex.input("anybyte", 8); ex.assume(st, ne(b, 0)); data.append(b); vals["any"] = b      # embedded NULs end the C string: outside the claim
+        n = len(data)
+        inp = ex.new_obj(st, n + 1, "input bytes")
+        for i, b in enumerate(data): ex.store_raw(st, Ptr(inp.obj, i), 1, b)
+        ex.store_raw(st, Ptr(inp.obj, n), 1, 0)
+        in_s = ex.new_obj(st, 32, "input"); strmodel._init(ex, st, in_s)
+        # the model string's buffer is replaced by the input object so that c_str() is the input itself
+        ex.store_raw(st, Ptr(in_s.obj, 0), 8, inp); ex.store_raw(st, Ptr(in_s.obj, 8), 8, n)
+        fmt_s = ex.new_obj(st, 32, "format"); strmodel._init(ex, st, fmt_s)
+        lp = F.lit(ex, st, fmt, "fmt-bytes"); strmodel._set(ex, st, fmt_s, lp, len(fmt))
+        zoff = ex.input("zone_offset", 32, -86399, 86399)
+        tz_obj = ex.new_obj(st, 8, "time_zone(fixed)"); tz_impl = ex.new_obj(st, 8, "Impl(fixed)"); ex.store_raw(st, tz_obj, 8, tz_impl)
+        utc_impl = ex.new_obj(st, 8, "Impl(UTC)")
+        sec = ex.new_obj(st, 8, "sec"); fs = ex.new_obj(st, 8, "fs")
+        ex.store_raw(st, sec, 8, ex.fresh("prefill")); ex.store_raw(st, fs, 8, ex.fresh("prefill"))
+        dm = build.demangle(list(mod.decls))
+        def sec_of(csp):
+            y = ex.load(st_ref[0], Ptr(csp.obj, csp.off), I64)
+            f5 = [ex.load(st_ref[0], Ptr(csp.obj, csp.off + 8 + i), I8) for i in range(5)]
+            return cal.sec(y, *f5)
+        st_ref = [st]
+        def lookup_cs(ex, st2, a):
+            # civil_lookup time_zone::lookup(const civil_second&) const   (sret, this, cs)
+            st_ref[0] = st2
+            ret, this, csp = a
+            impl = ex.load(st2, Ptr(this.obj, this.off), PtrTy(I8))
+            off = 0 if impl.obj == utc_impl.obj else zoff
+            t = sub(sec_of(csp), off)
+            t = ite(gt(t, I64MAX), I64MAX, ite(lt(t, I64MIN), I64MIN, t))
+            ex.store_raw(st2, Ptr(ret.obj, ret.off), 4, 0)
+            for o in (8, 16, 24): ex.store_raw(st2, Ptr(ret.obj, ret.off + o), 8, t)
+            return None
+        def lookup_tp(ex, st2, a):
+            # absolute_lookup time_zone::lookup(const time_point&) const : only used for the saturation guard
+            st_ref[0] = st2
+            ret, this, tpp = a
+            impl = ex.load(st2, Ptr(this.obj, this.off), PtrTy(I8))
+            off = 0 if impl.obj == utc_impl.obj else zoff
+            t = ex.load(st2, Ptr(tpp.obj, tpp.off), I64)
+            if smt.is_sym(t): raise symex.Unsupported("lookup(tp) with a symbolic instant in the parse driver")
+            f = cal.from_sec(t + (off if not smt.is_sym(off) else 0))
+            if smt.is_sym(off): raise symex.Unsupported("saturation guard with a symbolic zone offset")
+            ex.store_raw(st2, Ptr(ret.obj, ret.off), 8, f[0])
+            for i in range(5): ex.store_raw(st2, Ptr(ret.obj, ret.off + 8 + i), 1, f[1 + i])
+            ex.store_raw(st2, Ptr(ret.obj, ret.off + 16), 4, off); ex.store_raw(st2, Ptr(ret.obj, ret.off + 20), 1, 0)
+            ex.store_raw(st2, Ptr(ret.obj, ret.off + 24), 8, NULL)
+            return None
+        for nm in mod.decls:
+            d = dm[nm]
+            if d.startswith("cctz::time_zone::lookup(cctz::detail::civil_time"): ex.contracts[nm] = lookup_cs
+            if d.startswith("cctz::time_zone::lookup(std::chrono::time_point"): ex.contracts[nm] = lookup_tp
+            if d.startswith("cctz::utc_time_zone()"): ex.contracts[nm] = lambda ex, st2, a: utc_impl
+        ex.contracts["strlen"] = lambda ex, st2, a: strmodel._cstrlen(ex, st2, a[0])
+        def k(st2, rv):
+            st_ref[0] = st2
+            ok = rv if isinstance(rv, bool) else (rv if smt.is_sym(rv) and rv.sort == "B" else ne(rv, 0))
+            g = lambda k_, d=0: vals.get(k_, d)
+            if shape.startswith("s-"):
+                v = vals["s"]; v = smt.neg(v) if shape == "s-neg" else v
+                fits = and_(le(I64MIN, v), le(v, I64MAX))
+                if shape == "s-neg": fits = and_(fits, ne(vals["s"], 0))
+                ex.prove(st2, smt.iff(ok, fits), "parse(%%s): accepted iff the decimal value fits int64 (%s)" % shape)
+                ex.prove(st2, implies(ok, eq(ex.load(st2, sec, I64), v)), "parse(%s): the instant is exactly the number")
+                return
+            Y = g("Y", 1970); mo = g("m", 1); d = g("d", 1); H = g("H"); M = g("M"); S = g("S")
+            rng = and_(le(1, mo), le(mo, 12), le(1, d), le(d, 31), le(H, 23), le(M, 59), le(S, 60))
+            exists = le(d, cal.dim(Y, mo))
+            leap = eq(S, 60)
+            offp = 0
+            if "zh" in vals:
+                rng = and_(rng, le(vals["zh"], 23), le(vals["zm"], 59))
+                offp = mul(add(mul(vals["zh"], 3600), mul(vals["zm"], 60)), ite(eq(vals["osign"], 45), -1, 1))
+            inst = add(cal.sec(Y, mo, d, H, M, ite(leap, 59, S)), b2i(leap))
+            inst = sub(inst, offp if "zh" in vals else zoff)
+            want_ok = and_(rng, exists)
+            if shape == "trailing":
+                sp = or_(eq(vals["any"], 32), and_(le(9, vals["any"]), le(vals["any"], 13)))
+                want_ok = and_(want_ok, sp)
+            ex.prove(st2, smt.iff(ok, want_ok), "parse(%r): true iff every field is in its documented range, the date exists and nothing but whitespace follows" % fmt)
+            ex.prove(st2, implies(ok, eq(ex.load(st2, sec, I64), inst)), "parse(%r): the instant is exactly the one the fields denote (offset or zone applied, :60 rolls over)" % fmt)
+            if "f" in vals:
+                ex.prove(st2, implies(ok, eq(ex.load(st2, fs, I64), ite(leap, 0, mul(vals["f"], 10 ** 12)))), "parse(%E*S): sub-seconds in femtoseconds")
+        ex.call(st, PARSE, [fmt_s, in_s, tz_obj, sec, fs, NULL], k)
+    return ex.execute(h)
+
+def parse_jobs(tier):
+    return [("driver-parse:%s" % s, job_parse, {"shape": s}) for s in PARSE_SHAPES]
